@@ -1,6 +1,7 @@
 (** C11 - a panic in caller-supplied code leaves a valid array. *)
 From TD Require Import Base.Prelude Spec.Grid Spec.Inv Model.Iter Model.Owned Model.Hist
   Proofs.HistInv Proofs.InsertCol Proofs.InsertRowAny.
+From TD Require Import Model.View Model.Ops Proofs.ViewGeom Proofs.Frame Proofs.OpsProofs Proofs.ClonePanic.
 
 (** insert_row / push_row with ANY iterator script: any claimed length (every [N], so
     usize::MAX and lengths that overflow the reservation), ending early or late, panicking
@@ -70,6 +71,39 @@ Theorem C11_history_with_faults :
   forall cf ops l, hrun cf h_init ops = Ok l -> Forall (fun p => Inv (h_td (fst p))) l.
 Proof. intros cf ops l. apply hrun_inv. exact h_init_inv. Qed.
 Print Assumptions C11_history_with_faults.
+
+(** clone_from_slice / clone_from_toodee on an owned array, a mutable view or a third-party
+    implementor, the k-th [Clone::clone] panicking, for EVERY k: the buffer keeps its length,
+    no cell outside the receiver changes, and every cell of the receiver holds the element it
+    held before or the element the source supplied for it ([partial_clone]: the first k cells in
+    row-major order have been assigned, which is what the correspondence observes on
+    drop-tracked elements, together with: nothing dropped twice, nothing leaked) *)
+Theorem C11_clone_from_slice_panicking_clone :
+  forall rk v b (src : list N) k, wf_view v -> fits v b ->
+  (rk = KOwned -> vstride v = vcols v) -> length src = vcols v * vrows v ->
+  exists b', op_copy_from_slice rk v b src = Ok b' /\
+    let p := partial_clone b b' (recv_cells v) k in
+    length p = length b /\
+    (forall i, ~ in_view v i -> nth_error p i = nth_error b i) /\
+    (forall c r, c < vcols v -> r < vrows v ->
+       nth_error p (v_cell v c r) = nth_error b (v_cell v c r) \/
+       nth_error p (v_cell v c r) = nth_error src (r * vcols v + c)).
+Proof. exact clone_from_slice_panic_safe. Qed.
+Print Assumptions C11_clone_from_slice_panicking_clone.
+
+Theorem C11_clone_from_toodee_panicking_clone :
+  forall rk v b (srows : list (list N)) k, wf_view v -> fits v b ->
+  (rk = KOwned -> vstride v = vcols v) ->
+  length srows = vrows v -> Forall (fun r => length r = vcols v) srows ->
+  exists b', op_copy_from_toodee rk v b (vcols v, vrows v) srows = Ok b' /\
+    let p := partial_clone b b' (recv_cells v) k in
+    length p = length b /\
+    (forall i, ~ in_view v i -> nth_error p i = nth_error b i) /\
+    (forall c r s, c < vcols v -> nth_error srows r = Some s ->
+       nth_error p (v_cell v c r) = nth_error b (v_cell v c r) \/
+       nth_error p (v_cell v c r) = nth_error s c).
+Proof. exact clone_from_toodee_panic_safe. Qed.
+Print Assumptions C11_clone_from_toodee_panicking_clone.
 
 (** non-vacuity: the iterator panics at its second call while a row is inserted in the
     middle of a 2x3 array; and one that claims usize::MAX elements on the empty array *)
